@@ -53,7 +53,7 @@ def judge(alpha, paths, obs, ev, label):
                        "pre": [[g for g in pre] for pre in o["prefix"]] if not o["raised"] else []})
     tf.write_text(json.dumps({"alpha": alpha, "traces": traces}))
     try:
-        r = run_tlc("Trace_Resolve", "Trace_Resolve.cfg", env={"TRACE_FILE": str(tf)}, timeout=1500)
+        r = run_tlc("Trace_Resolve", "Trace_Resolve.cfg", env={"TRACE_FILE": str(tf)}, timeout=3000)
     finally:
         tf.unlink(missing_ok=True)
     tlc_must_pass(r, f"Trace_Resolve {label}")
